@@ -216,7 +216,7 @@ def run(ctx):
               "SysGates": "{<<1,2>>,<<0,3>>}", "EnvGates": '{"SW","CS"}',
               "FixedPlan": plan(n, "<<1,2>>", "<<0,3>>", ["CS", "SW", "SW"])})]:
         r = ctx.tlc("PTContract", PTC_CFG, label=label, workers=4,
-                    constants=dict(consts, Controls=ctl, Devs="{}", Emit="TRUE"))
+                    constants=dict(consts, Controls=ctl, Devs="{}", Dephase="FALSE", Emit="TRUE"))
         d = int(consts["D"])
         rho0 = probes.generic_rho(d, ctx.seed)
         vals = value_tables(r.cases, rho0)
